@@ -20,7 +20,7 @@ SPEC = dict(
               "C24_tree_is_fixed", "quiescent_iff_only_spawn", "C24_orig_stuck_waiter", "C24_orig_stuck_waiter_late_store", "C24_orig_lost_edit",
               "C24_orig_lost_edit_open_then_change", "C24_early_store_stuck", "C24_openedFirst_needed"],
     gen=[gen_shape],
-    steps=[dict(bin="sv_c24", area="c24", n_quick=18, n_thorough=300, corpus="corpus/c24.txt",
+    steps=[dict(bin="sv_c24", area="c24", n_quick=24, n_thorough=300, corpus="corpus/c24.txt",
                 dist_keys=("accepted", "handlers", "aborted", "waited", "q", "cfg", "len"),
                 nontrivial=lambda case, impl, kv: kv.get("handlers", "0") not in ("0", "1")
                 and (kv.get("aborted") == "1" or kv.get("waited") == "1"),
